@@ -1040,8 +1040,8 @@ def gen_pair(rng, P, gr, bad_pool):
                + ('display:table;' if prop == 'border-spacing' else ''))
         if rng.random() < 0.15:
             # the page box
-            pa = 'size:%s %s;margin:%s' % (spell(pxs[0] + 200, u1), spell(300, u1), spell(pxs[0] / 4, u1))
-            pb = 'size:%s %s;margin:%s' % (spell(pxs[0] + 200, u2), spell(300, u2), spell(pxs[0] / 4, u2))
+            pa = 'size:%s %s;margin:%s' % (spell(pxs[0] + 201, u1), spell(300, u1), spell(pxs[0] / 4, u1))
+            pb = 'size:%s %s;margin:%s' % (spell(pxs[0] + 201, u2), spell(300, u2), spell(pxs[0] / 4, u2))
             return dict(kind='units', sig='meta:units:@page', a=doc('', '', '', page=pa), b=doc('', '', '', page=pb),
                         note='%s == %s' % (pa, pb))
         da = '%s:%s' % (prop, ' '.join(spell(x, u1) for x in pxs))
